@@ -23,18 +23,82 @@ type joinRun struct {
 	derived   bool // jd: the joined collections are derived copies of the static ones
 	unchecked bool // ju: krt.WithJoinUnchecked (the generator keeps the keys disjoint)
 	flagged   bool
-	started bool
-	stop    chan struct{}
-	cols    []krt.StaticCollection[Obj]
-	state   []map[string]Obj
-	j       krt.Collection[Obj]
-	idx     krt.Index[string, Obj]
-	inner   []krt.Collection[Obj]
-	vidx    krt.Index[string, Obj] // by the +-separated parts of Val: the bucket changes when the object changes
-	touched map[string][]int
-	unsafeK []string
-	nsubs   int
-	subs    map[string]*subscriber
+	js        bool // one joined collection is a krt.NewStatic singleton (its GetKey ignores the key it is given)
+	si        int  // ... this one; it holds key n1/s or nothing
+	single    krt.StaticSingleton[Obj]
+	started   bool
+	stop      chan struct{}
+	cols      []krt.StaticCollection[Obj]
+	state     []map[string]Obj
+	j         krt.Collection[Obj]
+	idx       krt.Index[string, Obj]
+	inner     []krt.Collection[Obj]
+	vidx      krt.Index[string, Obj] // by the +-separated parts of Val: the bucket changes when the object changes
+	touched   map[string][]int
+	unsafeK   []string
+	nsubs     int
+	subs      map[string]*subscriber
+	// collections built on top of the join (created with the first subscriber, in cases that keep the discipline):
+	// a derived singleton that fetches everything from the join, a collection whose primary input is the join and
+	// which fetches from that singleton, and a collection whose primary input is the singleton
+	all   krt.Singleton[Out]
+	overJ krt.Collection[Out]
+	overS krt.Collection[Out]
+}
+
+func (r *joinRun) makeOver() {
+	if r.flagged || r.unchecked || r.all != nil {
+		return
+	}
+	r.all = krt.NewSingleton[Out](func(ctx krt.HandlerContext) *Out {
+		return &Out{Key: "all", Val: renderFetch(krt.Fetch(ctx, r.j))}
+	}, krt.WithStop(r.stop), krt.WithName("all"))
+	r.overJ = krt.NewCollection[Obj, Out](r.j, func(ctx krt.HandlerContext, o Obj) *Out {
+		n := "-"
+		if a := krt.FetchOne(ctx, r.all.AsCollection()); a != nil {
+			n = a.Val
+		}
+		return &Out{Key: o.ResourceName(), NS: o.NS, Val: o.Val + "|" + n}
+	}, krt.WithStop(r.stop), krt.WithName("overJ"))
+	r.overS = krt.NewCollection[Out, Out](r.all.AsCollection(), func(ctx krt.HandlerContext, o Out) *Out {
+		return &Out{Key: "copy", Val: o.Val}
+	}, krt.WithStop(r.stop), krt.WithName("overS"))
+	if r.merge {
+		for i := 0; i < 4; i++ { // see start(): sleep-and-poll loops need the fake clock to move
+			time.Sleep(200 * time.Millisecond)
+			synctest.Wait()
+		}
+	}
+}
+
+// overCheck: at quiescence the collections built on top of the join equal their function of the join's contents.
+func (r *joinRun) overCheck() string {
+	if r.all == nil {
+		return ""
+	}
+	cur := r.j.List()
+	want := renderFetch(cur)
+	a := r.all.Get()
+	if a == nil || a.Val != want {
+		return "inconsistent:singleton-fetching-the-join"
+	}
+	cp := r.overS.List()
+	if len(cp) != 1 || cp[0].Val != want {
+		return "inconsistent:collection-over-the-singleton"
+	}
+	got := map[string]string{}
+	for _, o := range r.overJ.List() {
+		got[o.Key] = o.Val
+	}
+	if len(got) != len(cur) {
+		return "inconsistent:collection-over-the-join:size"
+	}
+	for _, o := range cur {
+		if got[o.ResourceName()] != o.Val+"|"+want {
+			return "inconsistent:collection-over-the-join:" + o.ResourceName()
+		}
+	}
+	return ""
 }
 
 func newJoinRun(head []string) runner {
@@ -48,6 +112,11 @@ func newJoinRun(head []string) runner {
 		r.cols = append(r.cols, krt.NewStaticCollection[Obj](nil, nil, krt.WithStop(r.stop), krt.WithName("c"+strconv.Itoa(i))))
 		r.state = append(r.state, map[string]Obj{})
 		r.member = append(r.member, false)
+	}
+	if contains(head[4:], "js") && n > 0 && !r.merge {
+		cn, _ := strconv.Atoi(head[1])
+		r.js, r.si = true, cn%n
+		r.single = krt.NewStatic[Obj](nil, true, krt.WithStop(r.stop), krt.WithName("single"))
 	}
 	return r
 }
@@ -160,6 +229,10 @@ func (r *joinRun) start() {
 	cs := make([]krt.Collection[Obj], len(r.cols))
 	for i, c := range r.cols {
 		cs[i] = c
+		if r.js && i == r.si {
+			cs[i] = r.single.AsCollection()
+			continue
+		}
 		if r.derived {
 			cs[i] = krt.NewCollection[Obj, Obj](c, func(ctx krt.HandlerContext, o Obj) *Obj { return &o },
 				krt.WithStop(r.stop), krt.WithName("d"+strconv.Itoa(i)))
@@ -192,8 +265,10 @@ func (r *joinRun) start() {
 			synctest.Wait()
 		}
 	}
-	r.idx = krt.NewIndex[string, Obj](r.j, "ns", func(o Obj) []string { return []string{o.NS} })
-	r.vidx = krt.NewIndex[string, Obj](r.j, "val", func(o Obj) []string { return strings.Split(o.Val, "+") })
+	if !r.js { // a static singleton has no index (krt: panic("TODO"))
+		r.idx = krt.NewIndex[string, Obj](r.j, "ns", func(o Obj) []string { return []string{o.NS} })
+		r.vidx = krt.NewIndex[string, Obj](r.j, "val", func(o Obj) []string { return strings.Split(o.Val, "+") })
+	}
 	r.startState()
 }
 
@@ -233,6 +308,13 @@ func (r *joinRun) step(toks []string) (string, string) {
 		r.innerOp()
 		r.touch(o.ResourceName(), i)
 		r.state[i][o.ResourceName()] = o
+		if r.js && i == r.si {
+			if o.ResourceName() != "n1/s" {
+				return "bad-op", line
+			}
+			r.single.Set(&o)
+			return "ok", line
+		}
 		r.cols[i].UpdateObject(o)
 		return "ok", line
 	case toks[0] == "c.del" && len(toks) == 3:
@@ -244,6 +326,10 @@ func (r *joinRun) step(toks []string) (string, string) {
 			r.innerOp()
 			r.touch(toks[2], i)
 			delete(r.state[i], toks[2])
+			if r.js && i == r.si {
+				r.single.Set(nil)
+				return "ok", line
+			}
 			r.cols[i].DeleteObject(toks[2])
 		}
 		return "ok", line
@@ -301,6 +387,7 @@ func (r *joinRun) step(toks []string) (string, string) {
 		default:
 			r.j.RegisterBatch(rec(s), false)
 		}
+		r.makeOver()
 		return "ok", line
 	}
 	if r.started {
@@ -310,7 +397,12 @@ func (r *joinRun) step(toks []string) (string, string) {
 	notU := func(k string) bool { return !r.inU(k) }
 	switch {
 	case toks[0] == "list" && len(toks) == 1:
-		return "list " + answer(false, func() string { return showObjs(r.j.List(), notU) }), line
+		return "list " + answer(false, func() string {
+			if bad := r.overCheck(); bad != "" {
+				return bad
+			}
+			return showObjs(r.j.List(), notU)
+		}), line
 	case toks[0] == "ulist" && len(toks) == 1:
 		return "ulist " + answer(true, func() string { return showObjs(r.j.List(), r.inU) }), line
 	case toks[0] == "get" && len(toks) == 2:
@@ -327,6 +419,8 @@ func (r *joinRun) step(toks []string) (string, string) {
 			}
 			return o.Token()
 		}), line
+	case (toks[0] == "lookup" || toks[0] == "vlookup" || toks[0] == "ulookup") && r.js:
+		return "bad-op", line
 	case toks[0] == "lookup" && len(toks) == 2:
 		return "lookup " + answer(false, func() string { return showObjs(r.idx.Lookup(toks[1]), notU) }), line
 	case toks[0] == "vlookup" && len(toks) == 2:
